@@ -17,10 +17,11 @@ def main():
     progs, disc = progset.pool(b, ctx, ctx.q(12, 120), ctx.q(10, 150), ctx.q(14, 260), 'C08')
     # programs with errors: the diagnostics are compiler output too (added after the second C08 seeded change, which ordered
     # rejected meanings by heap address, and the baseline defect found with it: a diagnostic that depended on uninitialised memory)
-    FHEAD = '#include "aldor"\n#include "aldorio"\nimport from MachineInteger, Integer, String, SingleFloat, DoubleFloat, List MachineInteger, Array MachineInteger, Set MachineInteger, PrimitiveArray MachineInteger;\nf(n: MachineInteger): MachineInteger == n + 1;\n'
+    FHEAD = '#include "aldor"\n#include "aldorio"\nimport from MachineInteger, Integer, String, SingleFloat, DoubleFloat, Character, Byte, List MachineInteger, Array MachineInteger, Set MachineInteger, List String, Array String, Set String, PrimitiveArray MachineInteger, PrimitiveArray String, List Integer, Array Integer;\nf(n: MachineInteger): MachineInteger == n + 1;\n'
     FAULTY = ['stdout << max(1, 2, 3, 4, 5) << newline;', 'stdout << new(1, 2, 3, 4, 5) << newline;', 'x: MachineInteger := "s";', 'stdout << f("abc") << newline;',
               'import from ZqNoSuchDomain;', 'stdout << (1 +) << newline;', 'zqundef(3);', 'stdout << empty?(1, 2) << newline;', 'stdout << f(1, 2) + coerce(3, 4) << newline;',
-              'stdout << max(1, 2, 3) << new(1, 2, 3) << min("a", 2.0, 3) << newline;']
+              'stdout << max(1, 2, 3) << new(1, 2, 3) << min("a", 2.0, 3) << newline;', 'stdout << empty?(1, 2, 3) << newline;', 'stdout << set!(1, 2, 3, 4, 5, 6) << newline;',
+              'stdout << apply(1, 2, 3, 4, 5, 6) << newline;', 'stdout << copy(1, 2, 3, 4) << newline;', 'stdout << coerce(1, 2, 3) << newline;']
     for k, fl in enumerate(FAULTY):
         progs.append({'name': 'faulty:%d' % k, 'lib': 'aldor', 'text': FHEAD + fl + '\nstdout << f(2) << newline;\n', 'inc': None, 'expected': None, 'g': None, 'faulty': True})
     base = ctx.tmp('w')
